@@ -149,8 +149,9 @@ pub enum InnerTransportEvent {
 impl From<InnerTransportEvent> for TransportEvent {
     fn from(event: InnerTransportEvent) -> Self {
         match event {
-            InnerTransportEvent::DialFailure { peer, addresses } =>
-                TransportEvent::DialFailure { peer, addresses },
+            InnerTransportEvent::DialFailure { peer, addresses } => {
+                TransportEvent::DialFailure { peer, addresses }
+            }
             InnerTransportEvent::SubstreamOpened {
                 peer,
                 protocol,
@@ -165,8 +166,9 @@ impl From<InnerTransportEvent> for TransportEvent {
                 direction,
                 substream,
             },
-            InnerTransportEvent::SubstreamOpenFailure { substream, error } =>
-                TransportEvent::SubstreamOpenFailure { substream, error },
+            InnerTransportEvent::SubstreamOpenFailure { substream, error } => {
+                TransportEvent::SubstreamOpenFailure { substream, error }
+            }
             event => panic!("cannot convert {event:?}"),
         }
     }
